@@ -89,9 +89,12 @@ func (vm *VM) compile(ctx context.Context, text *text, s string, args ...interfa
 	}
 
 	p.text = true
-	for p.More() {
+	for {
 		if err := ctx.Err(); err != nil {
-			return err // A text of facts alone never reaches the trampoline, which is where a goal is cancelled.
+			return err // A text of facts alone (or an empty one) never reaches the trampoline, which is where a goal is cancelled.
+		}
+		if !p.More() {
+			break
 		}
 		p.Vars = p.Vars[:0]
 		p.doubleQuotes = vm.doubleQuotes // A directive of this text may have set the flag.
